@@ -164,7 +164,6 @@ Section Frame.
                      end).
       { unfold mentions in Hm. apply orb_false_elim in Hm. destruct Hm as [_ Hm].
         destruct loc; try exact I; apply rt_get_other, N.eqb_neq; exact Hm. }
-      rewrite rt_mp.
       assert (Fin : forall ol : option iloc,
                 match match ol with Some l => ms_insert (s_mp s) l | None => None end with
                 | Some (m1, idx) =>
@@ -182,12 +181,12 @@ Section Frame.
       { intros [l0|]; [|reflexivity]. destruct (ms_insert (s_mp s) l0) as [[m1 idx]|]; [|reflexivity].
         rewrite rt_set_mp, bar_set_target_rt by exact Hb0. unfold rt2, rt3.
         destruct (bar_set_target W H fails (set_s_mp s m1) b0 (TMulti idx) now) as [s1 e]. reflexivity. }
-      destruct loc as [|i|i|r|r].
-      + exact (Fin (Some LEnd)).
-      + exact (Fin (Some (LIndex i))).
-      + exact (Fin (Some (LFromBack i))).
-      + rewrite Hloc. exact (Fin (match b_target (get_bar s r) with TMulti i => Some (LAfter i) | _ => None end)).
-      + rewrite Hloc. exact (Fin (match b_target (get_bar s r) with TMulti i => Some (LBefore i) | _ => None end)).
+      rewrite rt_mp, (rt_get_other s b t b0 Hb0).
+      destruct (b_target (get_bar s b0)) as [|tg0|i0]; [| |reflexivity].
+      all: destruct loc as [|i|i|r|r];
+        [ exact (Fin (Some LEnd)) | exact (Fin (Some (LIndex i))) | exact (Fin (Some (LFromBack i)))
+        | rewrite Hloc; exact (Fin (match b_target (get_bar s r) with TMulti i => Some (LAfter i) | _ => None end))
+        | rewrite Hloc; exact (Fin (match b_target (get_bar s r) with TMulti i => Some (LBefore i) | _ => None end)) ].
     - (* ORemove *)
       assert (Hb0 : b0 <> b) by (apply Hx; reflexivity).
       rewrite rt_get_other by exact Hb0.
@@ -316,10 +315,17 @@ Section Sim.
       | None => (s, [], true)
       end.
   Proof.
-    intros Hb. cbn [Sys.step]. fold (bloc_iloc s bl).
-    destruct (match bloc_iloc s bl with Some l => ms_insert (s_mp s) l | None => None end) as [[m1 idx]|]; [|reflexivity].
-    unfold bar_set_target. change (get_bar (set_s_mp s m1) b) with (get_bar s b).
-    unfold is_member in Hb. destruct (b_target (get_bar s b)); try discriminate Hb; reflexivity.
+    intros Hb. cbn [Sys.step]. fold (bloc_iloc s bl). unfold is_member in Hb.
+    destruct (b_target (get_bar s b)) eqn:Ht; try discriminate Hb;
+      (destruct (match bloc_iloc s bl with Some l => ms_insert (s_mp s) l | None => None end) as [[m1 idx]|]; [|reflexivity];
+       unfold bar_set_target; change (get_bar (set_s_mp s m1) b) with (get_bar s b); rewrite Ht; reflexivity).
+  Qed.
+
+  (** ... of a bar that is a member: no effect (fix bee77c9) *)
+  Lemma insert_member s now bl b : is_member s b = true -> step s now (OInsert bl b) = (s, [], true).
+  Proof.
+    intros Hb. cbn [Sys.step]. unfold is_member in Hb.
+    destruct (b_target (get_bar s b)); try discriminate Hb. reflexivity.
   Qed.
 
   Lemma attach_nonmember s now b idx : is_member s b = false ->
@@ -344,7 +350,7 @@ Section Sim.
       cbn [MultiInterleave.sec_run MultiInterleave.pend_run].
       change (atomize ((now, x) :: r)) with (atom1 (now, x) ++ atomize r).
       destruct SI as [ND NM].
-      destruct x as [o|k rf|k bl b|k b]; cbn [atom1 fst snd app].
+      destruct x as [o|k rf|k b|k bl b|k b]; cbn [atom1 fst snd app].
       + (* MCall *)
         cbn [MultiInterleave.sched1] in H1. cbn [MultiInterleave.sec_step] in Hr |- *.
         cbn [MultiInterleave.pend_step] in Hr |- *.
@@ -358,8 +364,12 @@ Section Sim.
         cbn [MultiInterleave.sec_step] in Hr |- *. cbn [MultiInterleave.pend_step] in Hr |- *.
         destruct (IH ss _ pend (mkSI ss pend ND NM) Hr) as [E SI2]. rewrite E.
         match goal with |- context [sec_run ?st r] => destruct (sec_run st r) as [[s2 lc2] e2] end. cbn [fst snd]. auto.
+      + (* MCheck *)
+        cbn [MultiInterleave.sec_step] in Hr |- *. cbn [MultiInterleave.pend_step] in Hr |- *.
+        destruct (IH ss _ pend (mkSI ss pend ND NM) Hr) as [E SI2]. rewrite E.
+        match goal with |- context [sec_run ?st r] => destruct (sec_run st r) as [[s2 lc2] e2] end. cbn [fst snd]. auto.
       + (* MAlloc *)
-        cbn [MultiInterleave.sched1] in H1. destruct H1 as (Hpb & Hnm & Hloc).
+        cbn [MultiInterleave.sched1] in H1. destruct H1 as (Hpb & Hsk & Hloc).
         apply pending_false in Hpb.
         assert (Eloc : sec_iloc lc k bl = bloc_iloc ss bl).
         { destruct bl as [|i|i|rf|rf]; cbn [sec_iloc bloc_iloc]; try reflexivity;
@@ -372,32 +382,41 @@ Section Sim.
               apply N.eqb_neq; intros E; apply Hrf; rewrite E; apply in_map; exact Hp. }
         cbn [MultiInterleave.run_out]. unfold MultiSpec.step_sys at 1, MultiSpec.step_out at 1.
         rewrite (step_retargets pend now _ Hmen ss). cbn [fst snd].
-        unfold MultiSpec.step_sys, MultiSpec.step_out. rewrite (insert_nonmember ss now bl b Hnm).
         cbn [MultiInterleave.sec_step] in Hr |- *. cbn [MultiInterleave.pend_step] in Hr |- *.
-        rewrite Eloc in Hr |- *.
-        destruct (match bloc_iloc ss bl with Some l => ms_insert (s_mp ss) l | None => None end) as [[m1 idx]|].
-        * assert (SI' : SInv (set_s_mp ss m1) (mkpe k b idx :: pend)).
-          { constructor; [cbn; constructor; assumption|]. intros p [<-|Hp]; [exact Hnm | exact (NM p Hp)]. }
-          destruct (IH _ _ _ SI' Hr) as [E SI2]. cbn [fst snd].
-          change (retargets pend (retarget (set_s_mp ss m1) b (TMulti idx)))
-            with (retargets (mkpe k b idx :: pend) (set_s_mp ss m1)).
-          rewrite E.
+        unfold sec_alloc in Hr |- *. rewrite Hsk, Eloc in Hr |- *.
+        unfold MultiSpec.step_sys, MultiSpec.step_out.
+        destruct (is_member ss b) eqn:Hnm.
+        * (* the check said "member": no effect on either side *)
+          rewrite (insert_member ss now bl b Hnm).
+          destruct (IH _ _ _ (mkSI ss pend ND NM) Hr) as [E SI2]. cbn [fst snd]. rewrite E.
           match goal with |- context [sec_run ?st r] => destruct (sec_run st r) as [[s2 lc2] e2] end. cbn [fst snd]. auto.
-        * destruct (IH _ _ _ (mkSI ss pend ND NM) Hr) as [E SI2]. cbn [fst snd]. rewrite E.
-          match goal with |- context [sec_run ?st r] => destruct (sec_run st r) as [[s2 lc2] e2] end. cbn [fst snd]. auto.
+        * rewrite (insert_nonmember ss now bl b Hnm).
+          destruct (match bloc_iloc ss bl with Some l => ms_insert (s_mp ss) l | None => None end) as [[m1 idx]|].
+          -- assert (SI' : SInv (set_s_mp ss m1) (mkpe k b idx :: pend)).
+             { constructor; [cbn; constructor; assumption|]. intros p [<-|Hp]; [exact Hnm | exact (NM p Hp)]. }
+             destruct (IH _ _ _ SI' Hr) as [E SI2]. cbn [fst snd].
+             change (retargets pend (retarget (set_s_mp ss m1) b (TMulti idx)))
+               with (retargets (mkpe k b idx :: pend) (set_s_mp ss m1)).
+             rewrite E.
+             match goal with |- context [sec_run ?st r] => destruct (sec_run st r) as [[s2 lc2] e2] end. cbn [fst snd]. auto.
+          -- destruct (IH _ _ _ (mkSI ss pend ND NM) Hr) as [E SI2]. cbn [fst snd]. rewrite E.
+             match goal with |- context [sec_run ?st r] => destruct (sec_run st r) as [[s2 lc2] e2] end. cbn [fst snd]. auto.
       + (* MAttach *)
-        cbn [MultiInterleave.sched1] in H1. destruct H1 as (idx & Hin & Hlc).
+        cbn [MultiInterleave.sched1] in H1.
         cbn [MultiInterleave.sec_step] in Hr |- *. cbn [MultiInterleave.pend_step] in Hr |- *.
-        rewrite Hlc in Hr |- *.
-        pose proof (NM _ Hin) as Hnm. cbn [pe_bar] in Hnm.
-        rewrite (attach_nonmember ss now b idx Hnm) in Hr |- *.
-        set (pend' := filter (fun p => negb (N.eqb (pe_bar p) b)) pend) in *.
-        assert (SI' : SInv (retarget ss b (TMulti idx)) pend').
-        { constructor; [apply nodup_filter; exact ND|]. intros p Hp. apply filter_In in Hp. destruct Hp as [Hp Hb].
-          apply negb_true_iff, N.eqb_neq in Hb. unfold is_member. rewrite rt_get_other by exact Hb. apply (NM p Hp). }
-        destruct (IH _ _ _ SI' Hr) as [E SI2].
-        rewrite (retargets_remove pend k b idx ND Hin ss). fold pend'. rewrite E.
-        match goal with |- context [sec_run ?st r] => destruct (sec_run st r) as [[s2 lc2] e2] end. cbn [fst snd]. auto.
+        destruct H1 as [Hlc|(idx & Hin & Hlc)]; rewrite Hlc in Hr |- *.
+        * (* the call returned early (member) or panicked: nothing happens *)
+          destruct (IH _ _ _ (mkSI ss pend ND NM) Hr) as [E SI2]. rewrite E.
+          match goal with |- context [sec_run ?st r] => destruct (sec_run st r) as [[s2 lc2] e2] end. cbn [fst snd]. auto.
+        * pose proof (NM _ Hin) as Hnm. cbn [pe_bar] in Hnm.
+          rewrite (attach_nonmember ss now b idx Hnm) in Hr |- *.
+          set (pend' := filter (fun p => negb (N.eqb (pe_bar p) b)) pend) in *.
+          assert (SI' : SInv (retarget ss b (TMulti idx)) pend').
+          { constructor; [apply nodup_filter; exact ND|]. intros p Hp. apply filter_In in Hp. destruct Hp as [Hp Hb].
+            apply negb_true_iff, N.eqb_neq in Hb. unfold is_member. rewrite rt_get_other by exact Hb. apply (NM p Hp). }
+          destruct (IH _ _ _ SI' Hr) as [E SI2].
+          rewrite (retargets_remove pend k b idx ND Hin ss). fold pend'. rewrite E.
+          match goal with |- context [sec_run ?st r] => destruct (sec_run st r) as [[s2 lc2] e2] end. cbn [fst snd]. auto.
   Qed.
 End Sim.
 
